@@ -202,6 +202,7 @@ def run_dir(kind, tier, seed, C):
                  4: "C14: a run replaced or dropped an existing key / request, or the new certificate does not carry its public key",
                  5: "C15: a failed write was reported as a successful run",
                  6: "C10: an existing certificate file was replaced although the answer at the prompt was not y",
+                 11: "C03: a certificate the run has just written does not show the subject / serial number / validity / content of the entity's current configuration",
                  9: "C09: a run was not refused (or wrote files) although an entity violates its profile",
                  10: "C18: a directory in which every entity reaches a root through defined issuers was refused",
                  8: "C15/C20: the run panicked instead of ending with a result",
